@@ -7,6 +7,7 @@
   below 2^31, every element value (elements are the raw on-disk byte strings).
 -/
 import OpmVerif.Proofs.EclBin
+import OpmVerif.Proofs.EclFmt
 
 namespace OpmVerif.Props.C07
 open OpmVerif.Ecl
@@ -42,6 +43,22 @@ theorem layout_conforms (a : Arr) (h : a.WF) :
 theorem record_limits {t : ArrType} (hm : t ≠ .mess) (hv : ValidTy t) :
     maxNum t = specPerRecord t :=
   maxNum_eq_spec hm hv
+
+/-- Formatted files, numeric types (INTE, REAL, DOUB, LOGI): the size arithmetic used for seeking
+(`sizeOnDiskFormatted`) equals the number of characters `writeFormattedArray` emits for the data
+part — fixed-width columns, a line break after every `nColumns` values and at every 1000-value
+block — for every length.  The fields themselves (digits from `snprintf`) are inputs. -/
+theorem seek_arithmetic_agrees_formatted_numeric (t : ArrType) (hm : t ≠ .mess)
+    (fs : List (List Char)) (hw : ∀ f ∈ fs, f.length = (EclFmt.fmtParams t).2.2) :
+    (EclFmt.numericBody t fs).length = EclFmt.sizeOnDiskFormatted fs.length t :=
+  EclFmt.numericBody_length t hm (EclFmt.fmtParams_pos t hm).1 (EclFmt.fmtParams_pos t hm).2 fs hw
+
+/-- Formatted files, string types (CHAR, C0nn of any element size): the same for
+`writeFormattedCharArray` (blocks of 105 elements, `max 1 (80/(size+3))` columns). -/
+theorem seek_arithmetic_agrees_formatted_string (t : ArrType) (hm : t ≠ .mess)
+    (fs : List (List Char)) (hw : ∀ f ∈ fs, f.length = (EclFmt.fmtParams t).2.2) :
+    (EclFmt.stringBody t fs).length = EclFmt.sizeOnDiskFormatted fs.length t :=
+  EclFmt.stringBody_length t hm (EclFmt.fmtParams_pos t hm).1 (EclFmt.fmtParams_pos t hm).2 fs hw
 
 /-! Non-vacuity: a concrete well-formed two-array file meets the hypotheses and
 exercises the block loop. -/
